@@ -31,7 +31,7 @@ func init() {
 			"an OBU whose extension byte falls into the next packet is not attributed to a layer in the packet where only its first byte lies",
 		},
 		Strata: []fw.Stratum{
-			{Name: "obu-sequences", N: fw.Const(80000, 8000000), Run: c13Seq},
+			{Name: "obu-sequences", N: fw.Const(300000, 8000000), Run: c13Seq},
 			{Name: "leb128", N: fw.Const(c13LebBlocks, c13LebBlocks), Run: c13Leb, Exhaustive: true},
 			{Name: "obu-header-all-2^16", N: fw.Const(256, 256), Run: c13Hdr, Exhaustive: true},
 		},
